@@ -9,6 +9,7 @@ import H4.Driver.VGroup
 import H4.Driver.Annot
 import H4.Driver.Il
 import H4.Driver.Vs
+import H4.Driver.Attr
 import H4.Driver.MCache
 import H4.Driver.Bits
 import H4.Driver.SkpHuff
@@ -24,6 +25,7 @@ structure World where
   vg : H4.VGroup.File := {}
   an : H4.Annot.AnState := {}
   vs : VsState := {}
+  attr : AttrState := {}
   mcache : H4.MCache.State := mcacheInit
 
 def stepWorld (w : World) (engine : String) (args : List String) : World × String :=
@@ -41,6 +43,7 @@ def stepWorld (w : World) (engine : String) (args : List String) : World × Stri
   | "bits" => (w, stepBits args)
   | "skphuff" => (w, stepSkpHuff args)
   | "nbit" => (w, stepNBit args)
+  | "attr" => let (s, out) := stepAttr w.attr args; ({ w with attr := s }, out)
   | "hp" => let (h, r) := stepHp w.hp args; ({ w with hp := h }, r)
   | _ => (w, "bad-engine")
 
